@@ -6,6 +6,11 @@ pub mod sync {
         // a sender is identified by the ghost id of its channel
         pub struct Sender<T> { pub ghost chan: int, pub _p: core::marker::PhantomData<T> }
         pub struct Receiver<T> { pub ghost chan: int, pub _p: core::marker::PhantomData<T> }
+        impl<T> Receiver<T> {
+            // the environment decides what arrives and when; None = every sender has been dropped
+            #[verifier::external_body]
+            pub async fn recv(&mut self) -> (r: Option<T>) ensures final(self).chan == old(self).chan, { unimplemented!() }
+        }
     }
 }
 //@trusted tokio::sync::mpsc::{Sender,Receiver}: opaque handles identified by a ghost channel id; delivery / drop propagation not modelled
